@@ -437,4 +437,71 @@ theorem mem_reg_wrun (r : Nat) : ∀ (es : List WEvent) (w : World),
     | deliverAsg db => rw [wstep_reg_other w _ (fun _ => WEvent.noConfusion) (fun _ => WEvent.noConfusion)]; rfl
     | drop db => rw [wstep_reg_other w _ (fun _ => WEvent.noConfusion) (fun _ => WEvent.noConfusion)]; rfl
 
+/-! ### the manager's view catches up with the registrations -/
+
+theorem live_run_congr (r : Nat) (q : List Event) (st1 st2 : St) (h : r ∈ st1.live ↔ r ∈ st2.live) :
+    r ∈ (run st1 q).live ↔ r ∈ (run st2 q).live := by
+  rw [mem_live_run, mem_live_run]
+  have : decide (r ∈ st1.live) = decide (r ∈ st2.live) := by
+    by_cases h1 : r ∈ st1.live
+    · simp [h1, h.mp h1]
+    · have h2 : r ∉ st2.live := fun x => h1 (h.mpr x)
+      simp [h1, h2]
+  rw [this]
+
+/-- applying the node events that are still queued to the manager's live set gives exactly the
+registered set: the view differs from the registrations by the queued events and by nothing else -/
+def ViewInv (w : World) : Prop := ∀ r, r ∈ (run w.st w.nodeq).live ↔ r ∈ w.store.reg
+
+theorem viewInv_init : ViewInv World.init := by
+  intro r; simp [World.init, run, St.init]
+
+theorem viewInv_step {w : World} (h : ViewInv w) (e : WEvent) : ViewInv (wstep w e) := by
+  intro r
+  cases e with
+  | register id =>
+    show r ∈ (run w.st (w.nodeq ++ [.nodeUp id])).live ↔ r ∈ insertLive w.store.reg id
+    rw [run_append, mem_insertLive]
+    have := mem_live_step (run w.st w.nodeq) (.nodeUp id) r
+    show r ∈ (step (run w.st w.nodeq) (.nodeUp id)).live ↔ _
+    rw [this, h r]
+  | crash id =>
+    show r ∈ (run w.st (w.nodeq ++ [.nodeDown id])).live ↔ r ∈ w.store.reg.filter (· ≠ id)
+    rw [run_append, mem_filter_ne]
+    have := mem_live_step (run w.st w.nodeq) (.nodeDown id) r
+    show r ∈ (step (run w.st w.nodeq) (.nodeDown id)).live ↔ _
+    rw [this, h r]
+  | deliverNode =>
+    have hw := h r
+    simp only [wstep]
+    split
+    · exact hw
+    · rename_i e t hq
+      rw [hq] at hw
+      exact hw
+  | cfg db numShards rf start shift f =>
+    rw [wstep_reg_other w _ (fun _ => WEvent.noConfusion) (fun _ => WEvent.noConfusion)]
+    show r ∈ (run (step w.st (.dbCfg db)) w.nodeq).live ↔ _
+    rw [live_run_congr r w.nodeq _ w.st (mem_live_step w.st (.dbCfg db) r)]
+    exact h r
+  | deliverAsg db =>
+    have hw := h r
+    simp only [wstep]
+    split
+    · exact hw
+    · rename_i a hl
+      show r ∈ (run (step w.st (.assignChanged db a)) w.nodeq).live ↔ _
+      rw [live_run_congr r w.nodeq _ w.st (mem_live_step w.st (.assignChanged db a) r)]
+      exact hw
+  | drop db =>
+    show r ∈ (run (step w.st (.dropDb db)) w.nodeq).live ↔ r ∈ w.store.reg
+    rw [live_run_congr r w.nodeq _ w.st (mem_live_step w.st (.dropDb db) r)]
+    exact h r
+
+theorem viewInv_run : ∀ (es : List WEvent) (w : World), ViewInv w → ViewInv (wrun w es)
+  | [], _, h => h
+  | e :: t, w, h => by
+    show ViewInv (wrun (wstep w e) t)
+    exact viewInv_run t _ (viewInv_step h e)
+
 end LinVerif.Lemmas.C18
